@@ -453,7 +453,13 @@ int64_t cmi_pool_acquire_inner(struct cmb_resourcepool *rpp,
                 const bool found = cmi_process_remove_holdable(victim, hrp);
                 cmb_assert_debug(found == true);
 
-                /* Schedule a wakeup for it, but do not switch context yet */
+                /*
+                 * Take it out of whatever it is waiting for right away, so that
+                 * no other wakeup call (e.g., a grant from this very pool that
+                 * is already on its way) reaches it before the bad news. Then
+                 * schedule a wakeup for it, but do not switch context yet.
+                 */
+                cmi_process_cancel_awaiteds(victim);
                 cmb_process_interrupt(victim, CMB_PROCESS_PREEMPTED, victim->priority);
 
                  /* Split the loot */
